@@ -473,6 +473,22 @@ func init() {
 				e.errors = append(e.errors, "NewTimingWheelWithTicker: tickedPos field not found")
 			}
 		}
+		// numeric conversions anywhere in the file (the generic translator reads every conversion as the identity,
+		// so a narrowing one must not appear unnoticed)
+		if file := s.file(f); file != nil {
+			convs := []string{}
+			ast.Inspect(file, func(n ast.Node) bool {
+				if c, ok := n.(*ast.CallExpr); ok && len(c.Args) == 1 {
+					switch s.src(c.Fun) {
+					case "int", "int8", "int16", "int32", "int64", "uint", "uint8", "uint16", "uint32", "uint64",
+						"uintptr", "float32", "float64", "time.Duration", "byte", "rune":
+						convs = append(convs, s.src(c))
+					}
+				}
+				return true
+			})
+			e.stringList("conversions", "numeric conversions in "+f, convs)
+		}
 		// statement skeletons (order of list / map operations)
 		e.shapeDef(s, f, "TimingWheel.scanAndRunTasks", "scanShape")
 		e.shapeDef(s, f, "TimingWheel.drainAll", "drainShape")
